@@ -1915,6 +1915,12 @@ class MapResult(ApplyResult):
         success, result = success_result
         if success:
             self._value[i * self._chunksize:(i + 1) * self._chunksize] = result
+            # this part is done: its worker no longer owns a piece of the
+            # job (it may exit, e.g. to be recycled, without the job being
+            # treated as lost).
+            for j in range(i * self._chunksize,
+                           min((i + 1) * self._chunksize, self._length)):
+                self._worker_pid[j] = None
             self._number_left -= 1
             if self._number_left == 0:
                 if self._callback:
@@ -1966,7 +1972,7 @@ class IMapIterator:
         self._length = None
         self._ready = False
         self._unsorted = {}
-        self._worker_pids = []
+        self._worker_pids = {}  # part index -> pid working on it
         self._lost_worker_timeout = lost_worker_timeout
         cache[self._job] = self
 
@@ -1999,6 +2005,7 @@ class IMapIterator:
 
     def _set(self, i, obj):
         with self._cond:
+            self._worker_pids.pop(i, None)
             if self._index == i:
                 self._items.append(obj)
                 self._index += 1
@@ -2023,13 +2030,13 @@ class IMapIterator:
                 del self._cache[self._job]
 
     def _ack(self, i, time_accepted, pid, *args):
-        self._worker_pids.append(pid)
+        self._worker_pids[i] = pid
 
     def ready(self):
         return self._ready
 
     def worker_pids(self):
-        return self._worker_pids
+        return list(self._worker_pids.values())
 
 #
 # Class whose instances are returned by `Pool.imap_unordered()`
@@ -2040,6 +2047,7 @@ class IMapUnorderedIterator(IMapIterator):
 
     def _set(self, i, obj):
         with self._cond:
+            self._worker_pids.pop(i, None)
             self._items.append(obj)
             self._index += 1
             self._cond.notify()
